@@ -53,9 +53,14 @@ def opSrvReq (args : List SExp) : Option OpResult := do
       if !malformed r && !out.mutated && got.endsWith " 1" then [("C12", s!"{r.method}-reached-a-mutating-call-at-level-{r.level}")] else []
     -- `altered-path`: a backend call carried a path that is neither the request path (unchanged, with or without its
     -- trailing slash) nor one the backend handed out (C12: operations are invoked with the request path)
-    let strip (got : String) : String := if got.endsWith " altered-path" then String.ofList (got.toList.take (got.length - 13)) else got
+    -- `slash-dependent`: the backend operation the request starts with differs when the trailing slash of the request
+    -- path is added or removed (C12: the level is the depth below the prefix, with or without a trailing slash)
+    let strip (got : String) : String :=
+      if got.endsWith " altered-path" then String.ofList (got.toList.take (got.length - 13))
+      else if got.endsWith " slash-dependent" then String.ofList (got.toList.take (got.length - 16)) else got
     let c12p : String → List (String × String) := fun got =>
-      if got.endsWith " altered-path" then [("C12", s!"{r.method}-backend-called-with-an-altered-path")] else []
+      if got.endsWith " altered-path" then [("C12", s!"{r.method}-backend-called-with-an-altered-path")]
+      else if got.endsWith " slash-dependent" then [("C12", s!"{r.method}-level-operation-depends-on-the-trailing-slash")] else []
     pure ⟨impl, fun got => judgeOutcome (malformed r) r.method (strip got) ++ c12 (strip got) ++ c12p got⟩
   | _ => none
 
